@@ -132,6 +132,14 @@ def sock_cases(tier, rnd):
                         ["send", "ac_ctrl", "idem", "inline"], ["adv", d + 3.0]])
             out.append([["q"], ["net", "accept", d], ["fin"], ["q"],
                         ["send", "zone_ctrl", pol, "inline"], ["open"], ["adv", d + 3.0]])
+    # --- the twelfth transient write fault in the life of one socket is dealt with like the
+    #     first: the command is re-sent first on the next connection
+    for pol in ("idem", "long", "short"):
+        ops = [["q"]]
+        for i in range(14):
+            ops += [["wfail", 1 + i % 2], ["net", "accept", 0.1],
+                    ["send", S.KINDS[i % 3], pol, "inline"], ["adv", 3.0], ["q"]]
+        out.append(ops)
     # --- two messages: the retried one must go first on the next connection
     for n in (1, 2, 3):
         out.append([["q"], ["wfail", n], ["net", "accept", 0.5],
